@@ -486,8 +486,9 @@ func calculateChanges(oldVals, newVals map[string]string) (add, remove []KV) {
 		}
 	}
 
+	// a key with a changed value is updated by the add, removing it afterwards would drop it
 	for k, v := range oldVals {
-		if val, ok := newVals[k]; !ok || v != val {
+		if _, ok := newVals[k]; !ok {
 			remove = append(remove, KV{
 				Key: k,
 				Val: v,
